@@ -35,6 +35,10 @@ def case_class(c):
         return '%s,nillable=%s,min=%s,%s%s' % (c['ty'], c['nillable'], c['mino'], c['how'], ',default' if c.get('dflt') else '')
     if g == 'date':
         return '%s|delta=%s|off=%s' % (c['facet'], c['delta'], c['off'])
+    if g == 'inh':
+        return 'omit=%s' % c['omit']
+    if g == 'time':
+        return '%s|frac=%s' % (c['facet'], c['frac'])
     if g == 'lex':
         return '%s|text=%s' % (c['ty'], c['text'])
     if g == 'objarr':
@@ -91,7 +95,7 @@ def collect(ctx, with_lxml=False, families=None, positions=None):
     fams = families or sorted(d['families'])
     ok_value = {}
     for c in cases:
-        if c['valid'] and c['group'] in ('num', 'big', 'str', 'enum', 'date', 'lex'):
+        if c['valid'] and c['group'] in ('num', 'big', 'str', 'enum', 'date', 'lex', 'time'):
             ok_value.setdefault((c['group'], c['ty'], c.get('facet')), c)
     _CASES, _OKV = cases, ok_value
     order = sorted(range(len(cases)), key=lambda k: (json.dumps(V.type_of(cases[k]), sort_keys=True, default=str), k))
